@@ -35,7 +35,11 @@ type entry struct {
 	Kinds        string // space separated
 	Demand       string
 	PanicRefuses bool
-	Fn           func(b []byte, e *env, out *callOut) error
+	// After names the entry point this one wraps (it hands the same bytes to that decoder before it
+	// does anything else).  If the wrapped entry point KILLED its process on an input, the wrapper is
+	// not run on that input: the death is already reported, and every process death costs a restart.
+	After string
+	Fn    func(b []byte, e *env, out *callOut) error
 }
 
 var sink interface{}
@@ -66,7 +70,7 @@ var entries = []*entry{
 		sink = sl
 		return err
 	}},
-	{Name: "objects.StrListDecoder(reuse).Read", Kinds: "strlist", Demand: "verdict", Fn: func(b []byte, e *env, _ *callOut) error {
+	{Name: "objects.StrListDecoder(reuse).Read", After: "objects.StrListDecoder.Read", Kinds: "strlist", Demand: "verdict", Fn: func(b []byte, e *env, _ *callOut) error {
 		_, sl, err := objects.NewStrListDecoder(true).Read(bytes.NewReader(b))
 		sink = sl
 		return err
@@ -108,13 +112,13 @@ var entries = []*entry{
 		sink = c
 		return err
 	}},
-	{Name: "objects.GetCommit", Kinds: "commit", Demand: "verdict", Fn: func(b []byte, e *env, _ *callOut) error {
+	{Name: "objects.GetCommit", After: "objects.ReadCommitFrom", Kinds: "commit", Demand: "verdict", Fn: func(b []byte, e *env, _ *callOut) error {
 		sum := hashOf(b)
 		c, err := objects.GetCommit(storeWith(e.Pfx+string(sum), b), sum)
 		sink = c
 		return err
 	}},
-	{Name: "Receive(commit)", Kinds: "commit", Demand: "verdict", Fn: func(b []byte, e *env, out *callOut) error {
+	{Name: "Receive(commit)", After: "objects.ReadCommitFrom", Kinds: "commit", Demand: "verdict", Fn: func(b []byte, e *env, out *callOut) error {
 		return receiveOne(packfile.ObjectCommit, e.OType, b, e, out)
 	}},
 	// ---------------------------------------------------------------- table
@@ -123,13 +127,13 @@ var entries = []*entry{
 		sink = t
 		return err
 	}},
-	{Name: "objects.GetTable", Kinds: "table", Demand: "verdict", Fn: func(b []byte, e *env, _ *callOut) error {
+	{Name: "objects.GetTable", After: "objects.ReadTableFrom", Kinds: "table", Demand: "verdict", Fn: func(b []byte, e *env, _ *callOut) error {
 		sum := hashOf(b)
 		t, err := objects.GetTable(storeWith(e.Pfx+string(sum), b), sum)
 		sink = t
 		return err
 	}},
-	{Name: "Receive(table)", Kinds: "table", Demand: "verdict", Fn: func(b []byte, e *env, out *callOut) error {
+	{Name: "Receive(table)", After: "objects.ReadTableFrom", Kinds: "table", Demand: "verdict", Fn: func(b []byte, e *env, out *callOut) error {
 		return receiveOne(packfile.ObjectTable, e.OType, b, e, out)
 	}},
 	// ---------------------------------------------------------------- block
@@ -141,7 +145,7 @@ var entries = []*entry{
 	{Name: "objects.ValidateBlockBytes", Kinds: "block", Demand: "verdict", Fn: func(b []byte, e *env, _ *callOut) error {
 		return objects.ValidateBlockBytes(b)
 	}},
-	{Name: "objects.GetBlock", Kinds: "block", Demand: "verdict", Fn: func(b []byte, e *env, _ *callOut) error {
+	{Name: "objects.GetBlock", After: "objects.ReadBlockFrom", Kinds: "block", Demand: "verdict", Fn: func(b []byte, e *env, _ *callOut) error {
 		sum := hashOf(b)
 		blk, _, err := objects.GetBlock(storeWith(e.Pfx+string(sum), compressed(b)), nil, sum)
 		sink = blk
@@ -154,7 +158,7 @@ var entries = []*entry{
 		sink = blk
 		return err
 	}},
-	{Name: "objects.GetTableIndex", Kinds: "block", Demand: "verdict", Fn: func(b []byte, e *env, _ *callOut) error {
+	{Name: "objects.GetTableIndex", After: "objects.ReadBlockFrom", Kinds: "block", Demand: "verdict", Fn: func(b []byte, e *env, _ *callOut) error {
 		sum := hashOf(b)
 		idx, err := objects.GetTableIndex(storeWith(e.TiPfx+string(sum), b), sum)
 		sink = idx
@@ -172,7 +176,7 @@ var entries = []*entry{
 		sink = idx
 		return err
 	}},
-	{Name: "objects.GetBlockIndex", Kinds: "blkidx", Demand: "verdict", Fn: func(b []byte, e *env, _ *callOut) error {
+	{Name: "objects.GetBlockIndex", After: "objects.ReadBlockIndex", Kinds: "blkidx", Demand: "verdict", Fn: func(b []byte, e *env, _ *callOut) error {
 		sum := hashOf(b)
 		idx, _, err := objects.GetBlockIndex(storeWith(e.Pfx+string(sum), compressed(b)), nil, sum)
 		sink = idx
@@ -191,7 +195,7 @@ var entries = []*entry{
 		sink = p
 		return err
 	}},
-	{Name: "objects.GetTableProfile", Kinds: "profile", Demand: "verdict", Fn: func(b []byte, e *env, _ *callOut) error {
+	{Name: "objects.GetTableProfile", After: "objects.TableProfile.ReadFrom", Kinds: "profile", Demand: "verdict", Fn: func(b []byte, e *env, _ *callOut) error {
 		sum := hashOf(b)
 		p, err := objects.GetTableProfile(storeWith(e.Pfx+string(sum), b), sum)
 		sink = p
@@ -222,7 +226,7 @@ var entries = []*entry{
 		}
 		return errLoop
 	}},
-	{Name: "Receive(packfile)", Kinds: "pack", Demand: "rcv", Fn: func(b []byte, e *env, out *callOut) error {
+	{Name: "Receive(packfile)", After: "packfile.PackfileReader", Kinds: "pack", Demand: "rcv", Fn: func(b []byte, e *env, out *callOut) error {
 		return receive(b, e, out)
 	}},
 	// ---------------------------------------------------------------- a session of objects that refer to each other
